@@ -1075,15 +1075,39 @@ static void run() {
       ino->capacity = choose_range(0, enc.bytes.size(), "wf.capacity"); // disk fills up at this size
       vfs::world().faults = vfs::Faults();
       vfs::world().faults.short_write = (uint32_t)pick({0, 4, 2}, "wf.short");
-      FILE* f = vfs::fopen_inode(ino, "w", nullptr, true);
       set_context("save/" + enc.kind + "/full_disk");
       bool save_threw = false;
-      try {
-        img.save(f, fmt);
-      } catch (const std::exception&) {
-        save_threw = true;
+      int rc = 0;
+      if (choose(3, "wf.by_name") == 2) {
+        // the library opens (and must close) the file itself, also when the disk fills up under it
+        vfs::mkdir_p("/sim/pics");
+        string path = "/sim/pics/full.img";
+        auto slot = vfs::mkfile(path, "");
+        slot->capacity = ino->capacity;
+        ino = slot;
+        try {
+          img.save(path, fmt);
+        } catch (const std::exception&) {
+          save_threw = true;
+        }
+        if (vfs::open_fd_count()) {
+          vfs::world().faults = vfs::Faults();
+          fail("save/file_left_open", save_threw ? "by_name/failed_save" : "by_name/successful_save", string("Image::save(filename) left the file open after ") + (save_threw ? "a failed save (disk full)" : "a save"));
+        }
+        // by name, the library's own fclose decides whether a late write error is seen: a short file with no
+        // exception is a silent loss only if the data never reached the disk although fclose succeeded,
+        // which the library cannot know without checking fclose - not demanded by C06
+        rc = save_threw ? 0 : -1;
+        VS_PROBE("save_by_filename_on_full_disk");
+      } else {
+        FILE* f = vfs::fopen_inode(ino, "w", nullptr, true);
+        try {
+          img.save(f, fmt);
+        } catch (const std::exception&) {
+          save_threw = true;
+        }
+        rc = fclose(f);
       }
-      int rc = fclose(f);
       vfs::world().faults = vfs::Faults();
       ev("write_fault", ino->data.size(), enc.bytes.size(), save_threw);
       if (ino->data.size() < enc.bytes.size() && !save_threw && rc == 0) {
@@ -1136,7 +1160,7 @@ int main(int argc, char** argv) {
       {"glibc stdio, zlib", "real"},
       {"disk / file", "stub: simulated inode behind fopencookie (vsim/vfs.cc): durable prefix, scripted read sizes and EIO, capacity (full disk), short writes"},
       {"PNG/BMP/PPM reference decoders and foreign-file encoders", "harness code in engines/sim_image.cc sharing no code with phosg"}};
-  e.expected_probes = {"independent_decode_checked", "width_not_multiple_of_4", "grayscale_input", "bmp_bitfields_input", "bmp_top_down_input", "torn_every_prefix_of_a_file", "save_hit_full_disk", "saved_by_filename", "loaded_by_filename", "largest_picture_64x64", "faulty_file_loaded_by_filename", "image_move_assigned", "image_copy_assigned"};
+  e.expected_probes = {"independent_decode_checked", "width_not_multiple_of_4", "grayscale_input", "bmp_bitfields_input", "bmp_top_down_input", "torn_every_prefix_of_a_file", "save_hit_full_disk", "saved_by_filename", "loaded_by_filename", "largest_picture_64x64", "faulty_file_loaded_by_filename", "image_move_assigned", "image_copy_assigned", "save_by_filename_on_full_disk"};
   e.expected_faults = {"truncation", "EIO@read", "short_read", "short_write", "ENOSPC@capacity"};
   return driver_main(argc, argv, e);
 }
